@@ -302,6 +302,13 @@ class Interp:
             return
         if mod.split('.')[0] == 'pymoto':
             for a in st.names:
+                if a.name == '*':
+                    # star import: every public name of the (loaded) module - definitions and what it imported itself
+                    m2 = self.load(mod)
+                    for k_, v_ in m2.globals.items():
+                        if not k_.startswith('_'):
+                            env.vars.setdefault(k_, v_)
+                    continue
                 env.vars[a.asname or a.name] = self.resolve_pymoto(mod, a.name)
             return
         raise Unsupported(f'from {mod} import')
